@@ -396,7 +396,7 @@ fn check_base(base: &Vec<Sym>, acc: &mut Acc) {
 /// Long inputs: n operands joined by one operator; every operand parenthesised (spaced, tight),
 /// every gap widened, every AND spelt out / left implicit — against the plain spelling.
 fn long_forms(acc: &mut Acc) {
-    for &n in &[8usize, 16, 32, 33, 63, 64, 65, 66, 100, 128, 129, 200, 255, 256, 257] {
+    for n in 2usize..=257 {
         for (op, alt) in [("-o", "-or"), ("-a", "-and"), (",", ",")] {
             let prim = |k: usize| format!("-name n{k}");
             let plain: Vec<String> = (0..n).map(prim).collect();
@@ -502,7 +502,7 @@ pub fn run(ctx: &Ctx) -> i32 {
             level: "model_checking",
             exhaustive: true,
             rule: "state = (base sentence, set of spelling deviations); deviation-bounded exploration: 0, 1 and 2 simultaneous departures from the canonical spelling at every site with every value, plus all sites of one kind at once; distinct = distinct (options, tree) results".into(),
-            bound: format!("every grammar sentence of <= {n} symbols over 15 symbols (5 primaries, the option words -depth and -threads 3, so options-only and option-led inputs occur, and two name tests whose value contains the other quote character); deviation bound 2; all 341 blank-only inputs of length 0..4; chains of 8..257 operands (around every power of two) with every operand parenthesised / every gap widened / every operator replaced by its synonym / every value quoted; 96 (canonical, variant) pairs judged on a fresh thread right after parsing a text that differs only inside a quoted value"),
+            bound: format!("every grammar sentence of <= {n} symbols over 15 symbols (5 primaries, the option words -depth and -threads 3, so options-only and option-led inputs occur, and two name tests whose value contains the other quote character); deviation bound 2; all 341 blank-only inputs of length 0..4; chains of 8..257 operands (every size in the range) with every operand parenthesised / every gap widened / every operator replaced by its synonym / every value quoted; 96 (canonical, variant) pairs judged on a fresh thread right after parsing a text that differs only inside a quoted value"),
             assumptions: vec![
                 "insignificant spelling = blanks (space, tab, CR, LF) between words and at the ends, -a/-and/juxtaposition, -o/-or, redundant parentheses (spaced or touching their operand), quoting style of string-class arguments".into(),
                 "quoting of numeric arguments is unspecified and never varied".into(),
